@@ -648,9 +648,11 @@ def check_C06(ctx):
     rng = random.Random(ctx.seed * 1000 + 6)
     impl, exe = mocks_bench(ctx, asan=True)
     blocks = [gen_history(rng, rng.choice([3, 6, 10, 20, 40])) for _ in range(sizes(ctx, 1500, 40000))]
+    # histories in which expectations have side effects that call other mocked functions
+    blocks += [gen_history(rng, rng.choice([4, 8, 14, 25]), side=0.35) for _ in range(sizes(ctx, 600, 15000))]
     blocks += [gen_long_history(rng, n) for n in ([99, 100, 101, 199, 200, 201, 350] if ctx.tier == "quick" else [98, 99, 100, 101, 102, 199, 200, 201, 299, 300, 301, 350, 450])]
     # corpus of minimised past disagreements first
-    corpus = [["expect 0 t0 r8", "call 0", "tally"], ["expect 0 t0 r8", "expect 0 r9", "call 0", "call 0", "tally"],
+    corpus = [["expect 1 r10", "expect 0 r20 s1:0", "expect 2 r30", "call 0", "call 2 0 0", "call 0", "tally"], ["expect 0 t0 r8", "call 0", "tally"], ["expect 0 t0 r8", "expect 0 r9", "call 0", "call 0", "tally"],
               ["expect 1 w0:lt:2", "call 1 3", "tally"], ["never 0", "never 0", "call 0", "tally"],
               ["always 2 r5", "expect 2", "call 2 1 1", "tally"]]
     r = mocks_explore(ctx, exe, corpus + blocks, "C06", env=asan_env())
@@ -991,3 +993,42 @@ def check_C15(ctx):
     ctx.coverage["samples"] = lines[:3]
     ctx.coverage["evaluations"] = len(lines)
     ctx.coverage["distinct_nontrivial"] = len(set(lines))
+
+
+# ---- replay -------------------------------------------------------------------------------------
+def replay(ctx, path):
+    """Re-run one replay file written by a check against the current working tree and print what happens."""
+    txt = open(path).read()
+    body = "\n".join(l for l in txt.split("\n") if not l.startswith("#"))
+    print(txt.split("\n")[0])
+    if body.lstrip().startswith("cfg "):
+        rep = re.search(r"^# reporter: (\w+)", txt, re.M)
+        reps = [rep.group(1)] if rep else ["text"]
+        bench = Bench(ctx)
+        for block in [b for b in re.split(r"\n(?=cfg )", body.strip()) if b.strip()]:
+            m = run_model_scenarios([block + "\n"])[0]
+            for r in reps:
+                o = bench.run_many([(block + "\n", r)])[0]
+                print(f"--- reporter {r}: status {status_of(o)} (model {model_status(m)}), truth {m.truth}")
+                print(o.stdout[:3000])
+                print("disagreements:", compare(m, o, r))
+    elif re.search(r"^(expect|always|never|call|tally|mode) ", body, re.M):
+        impl, exe = mocks_bench(ctx, asan=True)
+        ops = [l for l in body.split("\n") if l.strip()]
+        ia, rc, err = run_impl_ops(exe, [ops], env=asan_env())
+        ma = run_model_ops("mocks", [ops]); sa = run_model_ops("mockspec", [ops])
+        print("exit", rc, err[-600:] if rc else "")
+        for i, op in enumerate(ops):
+            print(f"{op:40s} impl {ia[0][i] if ia and i < len(ia[0]) else None} | model {ma[0][i] if i < len(ma[0]) else None} | spec {sa[0][i] if i < len(sa[0]) else None}")
+    elif re.search(r"^(int|str|mem|dbl) ", body, re.M):
+        impl = build_impl(ctx, asan=True)
+        exe = compile_harness(ctx, impl, "cmp_probe_c", ["cmp_probe.c"], out="cmp_probe_c")
+        lines = [l for l in body.split("\n") if l.strip()]
+        got, rc, err = run_probe(exe, lines, env=asan_env())
+        cmd = "dbl" if lines[0].startswith("dbl") else "cmp"
+        model = run_model([cmd], "\n".join(lines) + "\n").split("\n")
+        for l, g, m in zip(lines, got, model):
+            print(f"{l}: impl {g} model {m}")
+        if rc: print("exit", rc, err[-800:])
+    else:
+        print(txt)
